@@ -4,7 +4,7 @@ redundant readings; create_hx and the gain matrix H^T R^-1 H of real estimation 
 Oracle: estimate() on exact, fully observable measurement sets taken from runpp results (bus v/p/q/va, branch p/q/i on
 both sides), in original order and permuted with duplicated readings: estimated voltages and branch flows equal the
 power flow, both runs agree, chi2_analysis reports no bad data and remove_bad_data removes nothing."""
-import copy, json, math
+import copy, json, math, random
 import numpy as np, pandas as pd
 import pandapower as pp
 from fractions import Fraction
@@ -26,7 +26,9 @@ RULE = ("(a) 200 index-mask pairs for _merge_mask (strictly increasing as produc
 ASSUMPTIONS = ["convergence of the Gauss-Newton WLS iteration from the flat start is not proved; it is observed on every generated case (a failure to converge is reported as a violation)",
                "the linear solve spsolve(G, rhs) is an oracle with contract G d = rhs; nonsingularity of G (observability) is a hypothesis of the fixed-point theorem",
                "bus power measurements follow the estimator's convention: demand of loads/generators at the bus, shunt elements belong to the network model (results.py adds them back)",
-               "sqrt/abs/angle are oracle inputs of the model (|I|^2 compared instead of |I|)"]
+               "sqrt/abs/angle are oracle inputs of the model (|I|^2 compared instead of |I|)",
+               "Jacobian rows: cos/sin of every bus angle and |I| of the branch are oracle inputs (math.cos/sin, numpy abs); the unit-pair residual |c^2+s^2-1| is recorded; the rows of _dSbr_dv/_dImbr_dV are compared at generated states (estimate with perturbed angles and magnitudes)",
+               "chi2_analysis/remove_bad_data are run with the iteration budget of estimate() (50) when their own default budget of 10 Gauss-Newton steps from the flat start does not suffice (identified by running exactly the wrapper's estimation)"]
 TRUSTED = ["numpy/scipy sparse algebra inside the estimator", "runpp as the reference state"]
 RUNKW = dict(calculate_voltage_angles=True, tolerance_mva=1e-9, numba=False)
 
@@ -238,6 +240,72 @@ def _cmp_hx(ctx, model, obs, case):
             return
 
 
+def _jac_terms(se, rng):
+    """model input for the Jacobian rows (_dSbr_dv both sides, _dImbr_dV both sides) of up to 3 branches at a GENERATED state
+    (the estimate with every angle and magnitude perturbed), plus the rows computed by the implementation"""
+    sol = se.solver
+    ep = sol.eppci
+    sem = BaseAlgebra(ep)
+    V0 = np.asarray(ep.V)
+    nb = len(V0)
+    th = [float(cq.round_bits(Fraction(float(np.angle(v)) + rng.randint(-8, 8) / 64), 30)) for v in V0]
+    vm = [float(cq.round_bits(Fraction(float(abs(v)) * (1 + rng.randint(-6, 6) / 128)), 30)) for v in V0]
+    cs = [(float(cq.round_bits(Fraction(math.cos(t)), 40)), float(cq.round_bits(Fraction(math.sin(t)), 40))) for t in th]
+    V = np.array([m * complex(c, s_) for m, (c, s_) in zip(vm, cs)])
+    unit_res = max(abs(c * c + s_ * s_ - 1) for c, s_ in cs)
+    Yf = sem.Yf.tocsr()
+    Yt = sem.Yt.tocsr()
+    If, It = Yf @ V, Yt @ V
+    rows = {}
+    for side in ("from", "to"):
+        dP, dQ = sem._dSbr_dv(V, side, None, None)
+        rows["P" + side], rows["Q" + side] = np.asarray(dP.todense()), np.asarray(dQ.todense())
+        rows["I" + side] = np.asarray(sem._dImbr_dV(V, side, None).todense())
+    cand = [l for l in range(len(sem.fb)) if int(sem.fb[l]) != int(sem.tb[l]) and abs(If[l]) > 1e-6 and abs(It[l]) > 1e-6]
+    rng.shuffle(cand)
+    pick = sorted(cand[:3])
+    terms, obs = [], []
+    pol = lambda k: "{| vm := %s; pc := %s; ps := %s |}" % (Q(vm[k], 40), Q(cs[k][0], 40), Q(cs[k][1], 40))
+    for l in pick:
+        f, t = int(sem.fb[l]), int(sem.tb[l])
+        br = "{| bf := %s; bt := %s; yff := %s; yft := %s; ytf := %s; ytt := %s |}" % (
+            cq.nat(f), cq.nat(t), Cq(complex(Yf[l, f]), 40), Cq(complex(Yf[l, t]), 40), Cq(complex(Yt[l, f]), 40), Cq(complex(Yt[l, t]), 40))
+        terms.append("run_jac_branch %s %s %s %s %s" % (br, pol(f), pol(t), Q(float(abs(If[l])), 40), Q(float(abs(It[l])), 40)))
+        cols = [f, t, nb + f, nb + t]
+        other = [c for c in range(2 * nb) if c not in cols]
+        obs.append({"l": l, "cols": cols,
+                    "rows": {k: v[l, cols].astype(float) for k, v in rows.items()},
+                    "off": max([float(np.max(np.abs(v[l, other]))) if other else 0.0 for v in rows.values()]),
+                    "S": (complex(V[f] * np.conj(If[l])), complex(V[t] * np.conj(It[l])))})
+    return "OL [%s]" % "; ".join(terms), (obs, unit_res)
+
+
+def _cmp_jac(ctx, model, job, case):
+    obs, unit_res = job
+    ctx.extra["max_unit_pair_residual"] = max(ctx.extra.get("max_unit_pair_residual", 0.0), unit_res)
+    for m, o in zip(model, obs):
+        ctx.corr_checked += 1
+        jsf, jst, jif, jit, sv = m
+        exp = {"Pfrom": [float(x[0]) for x in jsf], "Qfrom": [float(x[1]) for x in jsf],
+               "Pto": [float(x[0]) for x in jst], "Qto": [float(x[1]) for x in jst],
+               "Ifrom": [float(x) for x in jif], "Ito": [float(x) for x in jit]}
+        for key, mv in exp.items():
+            iv = o["rows"][key]
+            scale = max(1.0, float(np.max(np.abs(iv))))
+            if not all(abs(a - b_) <= 1e-7 * scale for a, b_ in zip(mv, iv)):
+                ctx.disagreement("Jacobian row d%s of branch %d, columns [th_f, th_t, vm_f, vm_t]: model %s impl %s" % (
+                    key, o["l"], ["%.10g" % a for a in mv], ["%.10g" % b_ for b_ in iv]), case)
+                return
+        if o["off"] > 0:
+            ctx.disagreement("Jacobian rows of branch %d have entries (max %.3g) outside the columns of its two end buses" % (o["l"], o["off"]), case)
+            return
+        for a, b_ in zip(sv, o["S"]):
+            if abs(complex(float(a[0]), float(a[1])) - b_) > 1e-8 * max(1.0, abs(b_)):
+                ctx.disagreement("S_side of branch %d: model %s impl %s" % (o["l"], [float(a[0]), float(a[1])], b_), case)
+                return
+        ctx.count("jacobian_branch_rows_compared")
+
+
 def _gain_terms(se, rng):
     sol = se.solver
     H = np.asarray(sol.H)
@@ -294,7 +362,7 @@ def _rn_kind(net):
     return "spec", None
 
 
-def _real_case(ctx, rng, k, hx_jobs, gain_jobs):
+def _real_case(ctx, rng, k, hx_jobs, gain_jobs, jac_jobs=None):
     net, feat = _gen_net(rng)
     try:
         pp.runpp(net, **RUNKW)
@@ -346,6 +414,8 @@ def _real_case(ctx, rng, k, hx_jobs, gain_jobs):
         est1 = net.res_bus_est[["vm_pu", "va_degree"]].values.copy()
         if len(hx_jobs) < ctx.n(25, 200):
             hx_jobs.append((_hx_terms(se), case))
+            if jac_jobs is not None:
+                jac_jobs.append((_jac_terms(se, random.Random(len(jac_jobs) * 7919 + int(ctx.seed))), case))
         if len(net.bus) <= 6 and len(gain_jobs) < ctx.n(8, 60):
             gain_jobs.append((_gain_terms(se, rng), case))
     # ---- run 2: permuted, with duplicated readings (same values, possibly other std_dev)
@@ -375,12 +445,27 @@ def _real_case(ctx, rng, k, hx_jobs, gain_jobs):
     # ---- no bad data flagged
     if ok2 and scheme != "minimal" and rng.random() < 0.6:      # without redundancy bad data is undetectable by construction
         kind, rnmax = _rn_kind(net2)
+        # the bad-data wrappers re-estimate from the flat start with their own default budget (tolerance 1e-6, at most 10
+        # iterations; estimate() itself allows 50).  Exact sets with current-magnitude readings can need 11-12 Gauss-Newton
+        # steps from the flat start; then the wrapper's inner estimation stops unconverged and the test cannot be evaluated
+        # (chi2_analysis: AttributeError on solver.r = None).  That is an iteration limit, not flagged bad data: such sets
+        # get the budget of estimate(); the guard is computed from the input by running exactly the wrapper's estimation.
+        bd_kw = {}
         try:
-            flagged = chi2_analysis(net2)
+            try:
+                flagged = chi2_analysis(net2)
+            except AttributeError:
+                se_def = StateEstimation(net2, 1e-6, 10, algorithm="wls")
+                r_def = se_def.estimate("flat", "flat", True)
+                if (r_def["success"] if isinstance(r_def, dict) else bool(r_def)):
+                    raise
+                bd_kw = {"maximum_iterations": 50}
+                ctx.count("bad_data_tests_need_more_than_10_iterations")
+                flagged = chi2_analysis(net2, **bd_kw)
             if flagged:
                 ctx.violation("spec", "chi2_analysis reports bad data on an exact measurement set", case2)
             n_before = len(net2.measurement)
-            remove_bad_data(net2)
+            remove_bad_data(net2, **bd_kw)
             if len(net2.measurement) != n_before:
                 ctx.violation(kind, "remove_bad_data removed %d exact readings" % (n_before - len(net2.measurement)), case2)
             ctx.count("bad_data_tests")
@@ -416,10 +501,10 @@ def run(ctx):
     _corpus(ctx)
     t1, o1, d1 = _mask_cases(ctx, rng)
     t2, o2, d2 = _merge_cases(ctx, rng)
-    hx_jobs, gain_jobs = [], []
+    hx_jobs, gain_jobs, jac_jobs = [], [], []
     for k in range(ctx.n(45, 500)):
-        _real_case(ctx, rng, k, hx_jobs, gain_jobs)
-    terms = t1 + t2 + [j[0][0] for j in hx_jobs] + [j[0][0] for j in gain_jobs]
+        _real_case(ctx, rng, k, hx_jobs, gain_jobs, jac_jobs)
+    terms = t1 + t2 + [j[0][0] for j in hx_jobs] + [j[0][0] for j in gain_jobs] + [j[0][0] for j in jac_jobs]
     model = ctx.coq_eval("c19", "Base.QN Base.QC C19.Model", terms, shard=40, timeout=900)
     pos = 0
     for m, o, d in zip(model[pos:pos + len(t1)], o1, d1):
@@ -437,7 +522,11 @@ def run(ctx):
     pos += len(hx_jobs)
     for (job, case), m in zip(gain_jobs, model[pos:pos + len(gain_jobs)]):
         _cmp_gain(ctx, m, job[1], case)
-    ctx.notes.append("hx correspondence on %d estimation runs, gain matrix on %d" % (len(hx_jobs), len(gain_jobs)))
+    pos += len(gain_jobs)
+    for (job, case), m in zip(jac_jobs, model[pos:pos + len(jac_jobs)]):
+        _cmp_jac(ctx, m, job[1], case)
+    ctx.notes.append("hx correspondence on %d estimation runs, gain matrix on %d, Jacobian rows (_dSbr_dv, _dImbr_dV; up to 3 branches each, perturbed states) on %d" % (
+        len(hx_jobs), len(gain_jobs), len(jac_jobs)))
 
 
 def replay(ctx, rec):
